@@ -83,7 +83,7 @@ void TwoPointsNumericalDerivative::updateDerivatives(const ParameterList& parame
         }
       }
 
-      der1_[i] = (f2_ - f1_) / h;
+      der1_[i] = (hf2 == 0) ? log(-1) : (f2_ - f1_) / h; // NaN when no probe was possible, as the three-point scheme does
     }
     // Reset last parameter and compute analytical derivatives if any:
     if (function1_)
